@@ -139,17 +139,26 @@ class FutureResult(object):
         self._done_event = EventData()
         self.__callback = None
         self.__extra = None
+        self.__lock = threading.Lock()
 
     def __notify(self):
         """
         Notify the given callback about the result of the execution
         """
-        if self.__callback is not None:
+        # Consume the registered callback: set_callback() and execute() can
+        # both get here for the same registration, only one must call it
+        with self.__lock:
+            callback = self.__callback
+            extra = self.__extra
+            self.__callback = None
+            self.__extra = None
+
+        if callback is not None:
             try:
-                self.__callback(
+                callback(
                     self._done_event.data,
                     self._done_event.exception,
-                    self.__extra,
+                    extra,
                 )
             except Exception as ex:
                 self._logger.exception("Error calling back method: %s", ex)
@@ -165,8 +174,10 @@ class FutureResult(object):
         :param method: The method to call back in the end of the execution
         :param extra: Extra parameter to be given to the callback method
         """
-        self.__callback = method
-        self.__extra = extra
+        with self.__lock:
+            self.__callback = method
+            self.__extra = extra
+
         if self._done_event.is_set():
             # The execution has already finished
             self.__notify()
